@@ -19,10 +19,11 @@ var alphabet = []string{"", "0", "1", "-1", "-5", "-2147483648", "-2147483649", 
 	"4294967294", "4294967295", "4294967296", "9223372036854775808", "-18446744073709551615", "7"}
 
 type Input struct {
-	Bits   bool     `json:"bits"`
-	Path   string   `json:"path"` // "api" | "text"
-	Names  []string `json:"names"`
-	Values []string `json:"values"` // "" = implicit
+	Many   *ManyInput `json:"many,omitempty"`
+	Bits   bool       `json:"bits"`
+	Path   string     `json:"path"` // "api" | "text"
+	Names  []string   `json:"names"`
+	Values []string   `json:"values"` // "" = implicit
 }
 
 type expect struct {
@@ -304,7 +305,7 @@ func run(c *core.Ctx) {
 	kind, path = parts[0], parts[1]
 	fmt.Sscanf(parts[2], "%d", &first)
 	L := maxLen(c.Tier, path)
-	c.Res.Bound = fmt.Sprintf("member sequences of length <= %d over %d values incl. implicit x all patterns of repeated names; enums and bits; API and module text; long lists: 1..300 implicit members alone and followed by an explicit repeat, and pairs with the same explicit value v for every v in 0..300 and around the powers of two to 2^32", L, len(alphabet))
+	c.Res.Bound = fmt.Sprintf("member sequences of length <= %d over %d values incl. implicit x all patterns of repeated names; enums and bits; API and module text; 1..150 distinct enum and bits types in one schema followed by exact repeats of the first, middle and last; long lists: 1..300 implicit members alone and followed by an explicit repeat, and pairs with the same explicit value v for every v in 0..300 and around the powers of two to 2^32", L, len(alphabet))
 	vals := make([]string, 0, L)
 	names := make([]string, 0, L)
 	var rec func()
@@ -333,6 +334,26 @@ func run(c *core.Ctx) {
 		if len(names) == L && first == 4 && ex.errAt < 0 {
 			b, _ := json.Marshal(in)
 			c.Sample(string(b))
+		}
+	}
+	if parts[2] == "long" && kind == "enum" && path == "text" {
+		for n := 1; n <= 150 && !c.Expired(); n++ {
+			in := Input{Many: &ManyInput{N: n}}
+			caseNo, run := c.Begin()
+			if c.Skip(caseNo, run, in) {
+				continue
+			}
+			c.Exec()
+			c.Validate()
+			c.Edge(int64(n))
+			c.StateN(1)
+			c.NontrivialN(1)
+			if f := checkMany(*in.Many); f != nil {
+				c.Outcome("FAIL:" + f.fp)
+				c.Fail(caseNo, nil, f.fp, in, f.exp, f.obs)
+			} else {
+				c.Outcome("assigned-as-required")
+			}
 		}
 	}
 	if parts[2] == "long" {
@@ -413,6 +434,13 @@ func replay(tier string, raw json.RawMessage) (bool, string, string) {
 	var in Input
 	if err := json.Unmarshal(raw, &in); err != nil {
 		return false, "", err.Error()
+	}
+	if in.Many != nil {
+		f := checkMany(*in.Many)
+		if f == nil {
+			return false, "", "every leaf has its own table"
+		}
+		return true, f.fp, fmt.Sprintf("expected %s observed %s", f.exp, f.obs)
 	}
 	f := check(in)
 	if f == nil {
